@@ -246,10 +246,23 @@ def weave(job, cpath, info, outdir, witness_mode=False):
                 continue      # witness search: run the real callee body instead of its contract
             contracts[cn] = c
             replaced.append(cn)
-    # every bodiless function reachable from the entry needs a contract
+    # every bodiless function reachable from the entry needs a contract; library functions on opaque library
+    # objects (std::string and friends, demangle) get the trusted default contract "touches only its own opaque objects"
+    trusted = []
     for cn in sorted(reach):
         f = info['functions'].get(cn, {})
         if f.get('kind') == 'extern' and cn not in contracts and cn not in ('memcmp', 'memcpy', 'memmove', 'strlen', 'memset'):
+            pretty = f.get('pretty', '')
+            if re.search(r'(^|\s)(std::|tao::pegtl::demangle|__gnu_cxx::)', pretty.split('(')[0]) or pretty.startswith('std::'):
+                targets = []
+                sig = f.get('sig', '')
+                for m_ in re.finditer(r'struct (S_\w+)\* (\w+)', sig):
+                    if 'opaque library type' in src.split('struct %s {' % m_.group(1))[1][:200] if ('struct %s {' % m_.group(1)) in src else False:
+                        targets.append('*%s' % m_.group(2))
+                contracts[cn] = Contract(R('1', 'trusted-library'), Clause('assigns', ', '.join(targets)))
+                replaced.append(cn)
+                trusted.append(pretty)
+                continue
             raise Undecided('reachable external function without contract: %s' % f.get('pretty'))
     # loops
     loops = {}
@@ -280,7 +293,7 @@ def weave(job, cpath, info, outdir, witness_mode=False):
         c = contracts.get(cn)
         if c is None:
             return ''
-        txt = c.render()
+        txt = late_subst(c.render())
         if cn == entry:
             # the contract vocabulary calls the input parameter `in`; an unnamed C++ parameter is lowered as _pN
             names = [p['name'] for p in fi.get('params', [])]
@@ -292,7 +305,30 @@ def weave(job, cpath, info, outdir, witness_mode=False):
         cn, o = m.group(1), int(m.group(2))
         return loops.get((cn, o), '')
 
-    out = src.replace('/*@PRELUDE@*/', '/* ---- prelude (spec side) ---- */\n' + job.prelude)
+    def site_sub(m):
+        hits = [c for c in find_fn(info, m.group(1), reach) if 'site_id' in info['functions'][c]]
+        if len(hits) != 1:
+            raise Undecided('$SITE{%s} matches %d throwing functions' % (m.group(1), len(hits)))
+        return str(info['functions'][hits[0]]['site_id'])
+
+    def exc_sub(m):
+        for t, i in info.get('exc_types', {}).items():
+            if t == m.group(1) or t.endswith('::' + m.group(1)) or t.split('<')[0] == m.group(1):
+                return str(i)
+        raise Undecided('$EXC{%s}: no such exception type in the lowered group' % m.group(1))
+
+    def late_subst(txt):
+        txt = re.sub(r'\$SITE\{([^}]*)\}', site_sub, txt)
+        return re.sub(r'\$EXC\{([^}]*)\}', exc_sub, txt)
+
+    # drop the bodies of functions that are not reachable from the function under contract (other instantiations
+    # of the same group): they are not part of this proof and only slow the front end down
+    keep = set(reach) | {rootc}
+
+    def prune(m):
+        return m.group(0) if m.group(1) in keep else '/* (pruned: %s not reachable from the entry) */' % m.group(1)
+    src = re.sub(r'/\*@FN (\w+)@\*/\n.*?\n/\*@ENDFN@\*/', prune, src, flags=re.S)
+    out = src.replace('/*@PRELUDE@*/', '/* ---- prelude (spec side) ---- */\n' + late_subst(job.prelude))
     out = re.sub(r'/\*@CONTRACT (\w+)@\*/', sub_contract, out)
     out = re.sub(r'/\*@LOOP (\w+) (\d+)@\*/', sub_loop, out)
     ghost = {}
@@ -321,7 +357,7 @@ def weave(job, cpath, info, outdir, witness_mode=False):
     os.makedirs(outdir, exist_ok=True)
     path = os.path.join(outdir, 'woven.c')
     open(path, 'w').write(out)
-    return {'path': path, 'entry': entry, 'replaced': replaced, 'contracts': contracts, 'loops': loops,
+    return {'path': path, 'entry': entry, 'replaced': replaced, 'contracts': contracts, 'loops': loops, 'trusted': trusted,
             'has_loops': bool(loops)}
 
 
@@ -386,6 +422,7 @@ def run_job(job, cpath, info, tier, defines=(), subdir=None, witness_mode=False,
                 pass
         res['_cfile'] = cfile
         res['replaced'] = [info['functions'][c]['pretty'] for c in w['replaced']]
+        res['trusted_library_calls'] = w.get('trusted', [])
         a = os.path.join(jdir, 'a.gb'); b = os.path.join(jdir, 'b.gb')
         rc, so, se, dt = run_cmd(['goto-cc', '--function', 'main', '-DVF_CBMC'] + list(defines) + ['-I', os.path.join(VERIF, 'contracts'),
                                   w['path'], '-o', a], 120, log)
